@@ -155,6 +155,14 @@ class Walker(object):
             return 'CMiss'
         if isinstance(test, (ast.Name, ast.Attribute)):
             return 'CTrue'
+        # `entry is not None and entry[0] is <name>`: a cached pair whose first component is (by identity) the
+        # object it was computed from
+        if isinstance(test, ast.BoolOp) and isinstance(test.op, ast.And) and len(test.values) == 2:
+            a, b = test.values
+            if self.kind(a) == 'CSome' and isinstance(a.left, ast.Name) \
+                    and isinstance(b, ast.Compare) and len(b.ops) == 1 and isinstance(b.ops[0], ast.Is) \
+                    and U(b.left) == '%s[0]' % a.left.id and isinstance(b.comparators[0], ast.Name):
+                return 'CFresh'
         return None
 
     def block(self, stmts):
@@ -264,7 +272,8 @@ CFG = {
                calls={'self.memo.get(key)': 'Rd MemoGet', 'self.func(*args, **kwargs)': 'Call Func'},
                locks={'self.lock': 'MLock'}, guarded={'memo', 'lock', 'func'}),
     'sort': Fn('sort_fields',
-               calls={'self._sortcache.get(cls, None)': 'Rd SortCache'},
+               calls={'self._sortcache.get(cls, None)': 'Rd SortCache',
+                      'cls.get_flat_type_info(cls)': 'Call Func'},
                call_res=[(r'^items\.sort\(', 'SortIt')],
                loads={'self._sortcache[cls]': 'Rd SortCache'}, stores={'self._sortcache[cls]': 'Wr SortCache'},
                ignored={'len(self._sortcache)'}, guarded={'_sortcache', 'sort', 'reverse'}),
@@ -419,6 +428,16 @@ def generate(repo):
     memo = tree(repo, 'spyne/util/memo.py')
     build = find_func(find_class(w11, 'Wsdl11', 'wsdl11.py'), 'build_interface_document', 'wsdl11.py')
     last = build.body[-1]
+    sortfn = find_func(find_class(base, 'ProtocolMixin', '_base.py'), 'sort_fields', '_base.py')
+    stores = [n for n in ast.walk(sortfn) if isinstance(n, ast.Assign) and len(n.targets) == 1
+              and U(n.targets[0]) == 'self._sortcache[cls]']
+    tests = [n.test for n in ast.walk(sortfn) if isinstance(n, ast.If) and isinstance(n.test, ast.BoolOp)
+             and 'entry[0] is' in U(n.test)]
+    fti_assigns = [U(n.value) for n in ast.walk(sortfn) if isinstance(n, ast.Assign) and len(n.targets) == 1
+                   and U(n.targets[0]) == 'fti']
+    sort_tagged = (len(stores) == 1 and U(stores[0].value) in ('(fti, items)', 'fti, items')
+                   and len(tests) == 1 and U(tests[0]) == 'entry is not None and entry[0] is fti'
+                   and sorted(fti_assigns) == ['None', 'cls.get_flat_type_info(cls)'])
     side = [
         ('wlock_is_lock', 'WsgiApplication.__init__: self._mtx_build_interface_document = threading.Lock()',
          init_assigns(find_class(wsgi, 'WsgiApplication', 'wsgi.py'), '_mtx_build_interface_document', 'threading.Lock()', 'wsgi.py')),
@@ -436,6 +455,8 @@ def generate(repo):
          init_assigns(find_class(memo, 'memoize', 'memo.py'), 'lock', 'threading.RLock()', 'memo.py')),
         ('vlock_is_lock', 'XmlDocument.__init__: self._validation_lock = threading.Lock()',
          init_assigns(find_class(xml, 'XmlDocument', 'xml.py'), '_validation_lock', 'threading.Lock()', 'xml.py')),
+        ('sort_entry_tagged', 'sort_fields: the entry stored is (fti, items), the entry returned is one whose first '
+                              'component IS the fti read from cls.get_flat_type_info(cls) in this call', sort_tagged),
         ('caches_exact', 'ProtocolMixin.__init__: _attrcache / _sortcache are WeakKeyDictionary() - looked up by the '
                          'exact class, never through a base-class fall-back (cdict)',
          init_assigns(find_class(base, 'ProtocolMixin', '_base.py'), '_attrcache', 'WeakKeyDictionary()', '_base.py') and
